@@ -7,11 +7,14 @@
   postings and every entry has the same label length and the same value length — nothing else about the database shows,
   so two databases with the same N have identically shaped indexes (`PiBas.shape_indistinguishable`) whatever their
   keywords, contents and list-length distributions.
+  PiPack: one entry per block, all alike (`PiPack.shape`), so equal block counts give identically shaped indexes
+  (`PiPack.shape_indistinguishable`).
   The other schemes' shape claims are decided by the correspondence (padding cells included) and the direct oracle on
   pairs of databases with equal size parameter; the level-table bound that makes ANSS16's padding sufficient
   (fewer than 2^(t+1-i) lists at level i) is checked there, not yet proved.
 -/
 import SSEPyVerif.Proofs.Schemes.ChainShape
+import SSEPyVerif.Proofs.Schemes.ChainCfg
 namespace SSEPy.C05
 open SSEPy.Sch SSEPy.Sch.Chain
 
@@ -65,6 +68,74 @@ theorem PiBas.shape_indistinguishable (raw : RawCfg) (cfg : ChainCfg) (hcfg : Pi
     (D.map fun p => (p.1.length, p.2.length)).Perm (D'.map fun p => (p.1.length, p.2.length)) := by
   have a := PiBas.shape raw cfg hcfg lv hl K db t t1 D h hn sz hsz
   have b := PiBas.shape raw cfg hcfg lv hl K' db' u u1 D' h' hn' sz hsz'
+  rw [hN] at a
+  exact a.trans b.symm
+
+/-- PiPack's public size parameter: the number of blocks `Σ_w ⌈|DB(w)| / B⌉` -/
+def PiPack.blocks (B : Nat) (db : DB) : Nat := (db.map fun p => ceilDiv p.2.length B).sum
+
+/-- PiPack: one entry per block, all alike — the label length and the ciphertext length of a FULL block, also for the
+    last, partly filled block of every keyword (it is padded before it is encrypted) -/
+theorem PiPack.shape (raw : RawCfg) (cfg : ChainCfg) (hcfg : PiPack.cfgBuild raw = .ok cfg) (lv : Leaves) (hl : LeafLaws lv)
+    (K : Bytes) (db : DB) (t t' : Tape) (D : Table) (h : Chain.setup cfg lv K db t = .ok (D, t'))
+    (hn : ∀ L, encDb cfg lv K db t = .ok (L, t') → (L.map (·.1)).Nodup)
+    (B sz : Int) (hB : getInt raw "param_B" = .ok B) (hsz : getInt raw "param_identifier_size" = .ok sz)
+    (hids : ∀ p ∈ db, ∀ id ∈ p.2, id.length = sz.toNat) :
+    (D.map fun p => (p.1.length, p.2.length)).Perm
+      (List.replicate (PiPack.blocks B.toNat db) (cfg.prfF.outputLength.toNat, 16 + 16 * (B.toNat * sz.toNat / 16 + 1))) := by
+  obtain ⟨lam, B', out, sz', ske, hpos, hex, _, hB', _, hsz', _, rfl⟩ := PiPack.cfgBuild_ok raw cfg hcfg
+  rw [hB] at hB'; cases hB'
+  rw [hsz] at hsz'; cases hsz'
+  have hBpos : 0 < B := param_pos _ raw "param_B" B hpos hex (by decide +kernel) (by simp) hB
+  have hszpos : 0 < sz := param_pos _ raw "param_identifier_size" sz hpos hex (by decide +kernel) (by simp) hsz
+  have := Chain.shape _ lv hl rfl K db t t' D h hn
+  refine this.trans (List.Perm.of_eq ?_)
+  clear this h hn hcfg
+  induction db with
+  | nil => rfl
+  | cons p rest ih =>
+    have hrest := ih (fun q hq => hids q (by simp [hq]))
+    simp only [List.flatMap_cons, hrest, PiPack.blocks, List.map_cons, List.sum_cons]
+    rw [← List.replicate_append_replicate]
+    congr 1
+    simp only [kwLens]
+    have e : partitionBlocks p.2 B sz = partitionBlocksNat p.2 B.toNat sz.toNat 0 := by
+      unfold partitionBlocks
+      have : (0 ≤ B ∧ 0 ≤ sz ∧ (0 : Int) ≤ 0) := ⟨by omega, by omega, by omega⟩
+      simp [this]
+    rw [e]
+    cases hp : partitionBlocksNat p.2 B.toNat sz.toNat 0 with
+    | error err =>
+      unfold partitionBlocksNat at hp
+      have : B.toNat ≠ 0 := by omega
+      simp [this] at hp
+    | ok blocks =>
+      simp only
+      have hc := C17.partition_count p.2 B.toNat sz.toNat 0 (by omega) blocks hp
+      have hlen := C17.partition_block_len p.2 B.toNat sz.toNat 0 (by omega) (hids p (by simp)) blocks hp
+      rw [← hc]
+      clear hc hp e
+      induction blocks with
+      | nil => rfl
+      | cons b bs ihb =>
+        simp only [List.map_cons, List.length_cons, List.replicate_succ]
+        rw [hlen b (by simp)]
+        congr 1
+        exact ihb (fun x hx => hlen x (by simp [hx]))
+
+/-- two databases with the same number of blocks give identically shaped PiPack indexes, whatever their keywords,
+    contents and list lengths -/
+theorem PiPack.shape_indistinguishable (raw : RawCfg) (cfg : ChainCfg) (hcfg : PiPack.cfgBuild raw = .ok cfg) (lv : Leaves)
+    (hl : LeafLaws lv) (K K' : Bytes) (db db' : DB) (t t1 u u1 : Tape) (D D' : Table)
+    (h : Chain.setup cfg lv K db t = .ok (D, t1)) (h' : Chain.setup cfg lv K' db' u = .ok (D', u1))
+    (hn : ∀ L, encDb cfg lv K db t = .ok (L, t1) → (L.map (·.1)).Nodup)
+    (hn' : ∀ L, encDb cfg lv K' db' u = .ok (L, u1) → (L.map (·.1)).Nodup)
+    (B sz : Int) (hB : getInt raw "param_B" = .ok B) (hsz : getInt raw "param_identifier_size" = .ok sz)
+    (hids : ∀ p ∈ db, ∀ id ∈ p.2, id.length = sz.toNat) (hids' : ∀ p ∈ db', ∀ id ∈ p.2, id.length = sz.toNat)
+    (hN : PiPack.blocks B.toNat db = PiPack.blocks B.toNat db') :
+    (D.map fun p => (p.1.length, p.2.length)).Perm (D'.map fun p => (p.1.length, p.2.length)) := by
+  have a := PiPack.shape raw cfg hcfg lv hl K db t t1 D h hn B sz hB hsz hids
+  have b := PiPack.shape raw cfg hcfg lv hl K' db' u u1 D' h' hn' B sz hB hsz hids'
   rw [hN] at a
   exact a.trans b.symm
 
